@@ -47,7 +47,10 @@ Proof.
   destruct (Inb.run prefix [wreq; wreq] wb Inb.init) as [[s o]|] eqn:E; [|vm_compute in E; discriminate].
   exists s, o, 1, KCan, (rcan wreq), (Some 0).
   split.
-  { intros i j H. destruct i as [|[|i]]; destruct j as [|[|j]]; cbn in *; try (destruct i); try (destruct j); cbn in *; auto; discriminate. }
+  { intros i j H.
+    assert (A : forall n, nth n [wreq; wreq] dreq = wreq \/ nth n [wreq; wreq] dreq = dreq).
+    { intros [|[|[|n]]]; cbn; auto. }
+    destruct (A i) as [Hi|Hi], (A j) as [Hj|Hj]; rewrite Hi, Hj in *; auto; discriminate. }
   split; [reflexivity|].
   vm_compute in E. inversion E; subst. cbn. repeat split; try reflexivity; discriminate.
 Qed.
@@ -161,11 +164,11 @@ Proof.
   destruct (Inb.run asis [wreq; wreq] wpanic Inb.init) as [[s o]|] eqn:E; [|vm_compute in E; discriminate].
   exists s, o. split; [reflexivity|].
   vm_compute in E. inversion E; subst. clear E.
-  repeat split; try reflexivity.
+  repeat split; try (vm_compute; reflexivity).
   intros x Hx.
   destruct x as [i|i|i|i w|i|i v]; try discriminate;
-    (destruct i as [|[|i]]; [| |reflexivity]); try reflexivity;
-    try (destruct w; reflexivity); try (destruct v; reflexivity).
+    (destruct i as [|[|i]]; [| |vm_compute; reflexivity]); try (vm_compute; reflexivity);
+    try (destruct w; vm_compute; reflexivity); try (destruct v; vm_compute; reflexivity).
 Qed.
 
 (* the same when the leader's client writer panics after the shared work succeeded *)
@@ -182,11 +185,11 @@ Proof.
   destruct (Inb.run asis [wreq; wreq] wpanicw Inb.init) as [[s o]|] eqn:E; [|vm_compute in E; discriminate].
   exists s, o. split; [reflexivity|].
   vm_compute in E. inversion E; subst. clear E.
-  repeat split; try reflexivity.
+  repeat split; try (vm_compute; reflexivity).
   intros x Hx.
   destruct x as [i|i|i|i w|i|i v]; try discriminate;
-    (destruct i as [|[|i]]; [| |reflexivity]); try reflexivity;
-    try (destruct w; reflexivity); try (destruct v; reflexivity).
+    (destruct i as [|[|i]]; [| |vm_compute; reflexivity]); try (vm_compute; reflexivity);
+    try (destruct w; vm_compute; reflexivity); try (destruct v; vm_compute; reflexivity).
 Qed.
 
 (* on the repaired code the deferred Abandon frees the key and closes Done with neither Data nor Err:
@@ -213,11 +216,11 @@ Proof.
   destruct (Sub.run nodefer [wreq; wreq] wpanic Sub.init) as [[s o]|] eqn:E; [|vm_compute in E; discriminate].
   exists s, o. split; [reflexivity|].
   vm_compute in E. inversion E; subst. clear E.
-  repeat split; try reflexivity.
+  repeat split; try (vm_compute; reflexivity).
   intros x Hx.
   destruct x as [i|i|i|i w|i|i v]; try discriminate;
-    (destruct i as [|[|i]]; [| |reflexivity]); try reflexivity;
-    try (destruct w; reflexivity); try (destruct v; reflexivity).
+    (destruct i as [|[|i]]; [| |vm_compute; reflexivity]); try (vm_compute; reflexivity);
+    try (destruct w; vm_compute; reflexivity); try (destruct v; vm_compute; reflexivity).
 Qed.
 
 (* with the defer: Finish runs while the panic unwinds, the follower wakes on an item with nothing published
